@@ -336,7 +336,10 @@ def task(args):
     p = Partial()
     if what == "scale":
         for spec in payload:
-            check_scaling(spec, factors, maxlen, p)
+            try:
+                check_scaling(spec, factors, maxlen, p)
+            except Exception as e:
+                p.violation(f"C15:exception:{type(e).__name__}|{name(spec) if spec[0] == 'leaf' else 'composition'}|", dict(spec=spec), f"{name(spec)}: {e!r}")
         p.sample(dict(spec=name(payload[0]), factors=list(factors), max_sequence_length=maxlen))
     elif what == "observable":
         try:
@@ -346,7 +349,11 @@ def task(args):
                         f"sampling a parameter at the end of a scaled range raised {e!r}")
     else:
         for W, bs, n, kind in payload:
-            check_scheduled(W, bs, n, kind, p)
+            try:
+                check_scheduled(W, bs, n, kind, p)
+            except Exception as e:
+                p.violation(f"C15:scheduled_exception:{type(e).__name__}|budget={kind}", dict(scheduled=True, W=W, batch_size=bs, n_batches=n, kind=kind),
+                            f"W={W} batch_size={bs} n_batches={n} ({kind}): {e!r}")
         p.sample(dict(scheduled=dict(W=payload[0][0], batch_size=payload[0][1], n_batches=payload[0][2], budget=payload[0][3])))
     return p
 
